@@ -30,6 +30,24 @@ func clearSign(e *openpgp.Entity, text string) string {
 	return b.String()
 }
 
+// inlineSigned: the text as an armored inline-signed OpenPGP message ("gpg --sign --armor":
+// one-pass signature, literal data, signature - not a clearsigned document)
+func inlineSigned(e *openpgp.Entity, text, blockType string) string {
+	var b bytes.Buffer
+	aw, err := armor.Encode(&b, blockType, nil)
+	if err != nil {
+		return ""
+	}
+	w, err := openpgp.Sign(aw, e, nil, &packet.Config{DefaultHash: crypto.SHA256})
+	if err != nil {
+		return ""
+	}
+	w.Write([]byte(text))
+	w.Close()
+	aw.Close()
+	return b.String() + "\n"
+}
+
 // withSignatures replaces the signature armor of a clearsigned document by one armor that
 // holds the signature packets of all the given clearsigned documents, in that order
 func withSignatures(signed string, from ...string) string {
@@ -454,6 +472,15 @@ func streamClearsig(g *core.G) {
 			}
 			g.Emit("law-clearsig-reader", core.Hex(signed), core.Hex("Package: unsigned\nVersion: 6.6.6\n\nPackage: second\n"), core.Hex(serializeKeyring([]*openpgp.Entity{signer})))
 			g.Emit("law-clearsig-krmut", core.Hex(signed), core.Hex(clearSign(o, text)), core.Hex(serializeKeyring([]*openpgp.Entity{signer})), core.Hex(serializeKeyring([]*openpgp.Entity{o})))
+		}
+		// other OpenPGP containers around the same text, made with a key that is not in the keyring:
+		// whatever the reader makes of an armored inline-signed message, it does not hand the text
+		// out when a keyring was given and the signer is not in it
+		for _, bt := range []string{"PGP MESSAGE", "PGP SIGNED MESSAGE", "PGP SIGNATURE"} {
+			if in := inlineSigned(ks[2], text, bt); in != "" && r.Chance(1, 2) {
+				law(in, krBoth, true, sid, "reject")
+				law(in, krEmpty, true, sid, "reject")
+			}
 		}
 		// signature removed / replaced by another document's signature
 		law(signed[:sigStart], krBoth, true, sid, "reject")
